@@ -167,6 +167,14 @@ fn workload_a(ctx: &Ctx, rep: &mut Report, uni: u64, len: u32) {
     for step in 0..len {
         let sym = code % 9;
         code /= 9;
+        // time may pass between any two steps: the window neither closes nor reopens by itself
+        if rng.chance(1, 6) {
+            let d = rng.ledger_jump();
+            if u.advance(d) {
+                rep.step(format!("ledger advances to {}", u.seq()));
+                rep.count("advance-ledger");
+            }
+        }
         if sym == 8 {
             // the role changes hands in the middle of the history (also while a window is open)
             let new_owner = u.principal();
@@ -546,5 +554,5 @@ pub fn run(ctx: &Ctx, rep: &mut Report) {
     req.push("upgrader:target:real-swap".into());
     rep.notes.insert("required".into(), json!(req));
     rep.notes.insert("bounds".into(), json!({"workload_A_sequence_length": len, "workload_A_sequences": n_a, "workload_B_swaps": n_b, "workload_C_upgrader_calls": n_c, "exhaustive_part": "workload A (all sequences of the stated length over {upgrade, migrate} x {owner, former owner, stranger, nobody} plus ownership transfer by the owner, for 6 contracts, with and without a previous ownership transfer); B and C are sampled"}));
-    rep.notes.insert("rule".into(), json!("A: every sequence of the stated length over the 9 symbols {upgrade, migrate} x {owner, former owner, stranger, nobody} and the-owner-transfers-ownership (so the role can change hands while a window is open) on gateway, gas service, operators, ITS, interchain token and a versioned test target, run natively (upgrade to the native marker hash), window model checked at every step plus an end-of-history probe; B: real code swap to committed Wasm binaries (refused for stranger/nobody, executable hash changes, owner persists); C: Upgrader.upgrade with requested version {same, correct, wrong} x authorisation coverage {both steps, upgrade only, migrate only, none, stranger} x migration data {well-typed, ill-typed, wrong arity, empty}: completes and ends at the requested different version, or the whole ledger is unchanged. distinct = (contract, op, principal, window, history, outcome) / (target, version class, auth class, data class, outcome)"));
+    rep.notes.insert("rule".into(), json!("A: every sequence of the stated length over the 9 symbols {upgrade, migrate} x {owner, former owner, stranger, nobody} and the-owner-transfers-ownership (so the role can change hands while a window is open) on gateway, gas service, operators, ITS, interchain token and a versioned test target, run natively (upgrade to the native marker hash), window model checked at every step plus an end-of-history probe, with ledger advancement (up to the expiry of every temporary entry) before one step in six; B: real code swap to committed Wasm binaries (refused for stranger/nobody, executable hash changes, owner persists); C: Upgrader.upgrade with requested version {same, correct, wrong} x authorisation coverage {both steps, upgrade only, migrate only, none, stranger} x migration data {well-typed, ill-typed, wrong arity, empty}: completes and ends at the requested different version, or the whole ledger is unchanged. distinct = (contract, op, principal, window, history, outcome) / (target, version class, auth class, data class, outcome)"));
 }
